@@ -21,6 +21,7 @@ EXPLANATION = ("(R1) the ideal law: the granted power is exactly min(pilot x vol
                "selecting the pieces are the predicates s < P and s + D <= P up to a positive factor."
                ' Added in round 3: reset is decided on its decision table and covers every attribute a charge routine writes.'
                ' Added after the mutation matrix: energy identities of the three routines and exact clamp operands (shared with C02 / C03).')
+EXPLANATION += ' Added in rounds 4-5: no path of reset stores anything but itself into the remembered initial charge.'
 NOT_DECIDED = ("uniqueness of the solution of the law (hence the period-splitting identity T = T/2 + T/2 and monotonicity in pilot and "
                "T) is the Picard-Lindelof theorem, taken from analysis: R7 decides that each piece *is* a solution with the right entry "
                "value and is selected by the right region predicate; the legacy stepwise routine is one Euler step by design and is only "
